@@ -117,6 +117,8 @@ def execute(P, tset, mode, limname, dts, alphas, hmin=None):
                     terms.append(pf.convectionTVDupwindRHSTerm(uf, phi, FL))
                 if 'src' in tset:
                     terms += [pf.linearSourceTerm(pf.CellVariable(m, P['beta'].copy())), pf.constantSourceTerm(pf.CellVariable(m, P['gamma'].copy()))]
+                if P.get('containers') is not None:
+                    terms = gen.vary_terms(np.random.default_rng([int(P['containers']), istep]), terms, p=0.5)
                 spy = SpySolver()
                 solve_with(pf, spy, phi, terms, default_path=bool(P.get('default_path')))
                 M, b, x = spy.last
@@ -346,6 +348,10 @@ def run_case(case):
     Q['flag_seed'] = list(case['seed']) + [2]
     P['default_path'] = bool(case['seed'][-1] % 2)            # the two executions of a pair use the two solver routes crosswise
     Q['default_path'] = not P['default_path'] if case['seed'][-1] % 4 < 2 else P['default_path']
+    # one execution of the pair hands its matrix terms over in other sparse containers (csc / coo / lil), the other as built
+    if case['seed'][-1] % 3 == 0:
+        Q['containers'] = int(case['seed'][-1]) + 7
+        cov['term_containers_varied'] = 1
     lowres, gL = execute(P, tset, mode, limname, dts, alphas, hmin)
     highres, gH = execute(Q, tset, mode, limname, dts, alphas, hmin)
     for st_ in list(P.get('flag_styles', {}).values()) + list(Q.get('flag_styles', {}).values()):
